@@ -268,6 +268,25 @@ class TObjT(_Scalar):
 TInt, TReal, TBool, TStr, TNode, TObj = TIntT(), TRealT(), TBoolT(), TStrT(), TNodeT(), TObjT()
 
 
+class TConst(T):
+    """a parameter fixed to a concrete python value (the contract covers this instance of the function only)"""
+
+    def __init__(self, value):
+        self.value = value
+
+    def sorts(self):
+        return []
+
+    def flat(self, v):
+        return []
+
+    def unflat(self, terms):
+        return self.value
+
+    def fresh(self, name):
+        return self.value
+
+
 class TTuple(T):
     def __init__(self, *ts):
         self.ts = list(ts)
